@@ -320,6 +320,47 @@ fn coord_heavy(prop: &'static str) -> SchedCampaign {
     c
 }
 
+/// Tiny whole-scheduler blocks for the Miri lane (weak memory, arbitrary pre-emption).
+fn tiny_sched(prop: &'static str) -> SchedCampaign {
+    SchedCampaign {
+        prop,
+        families: vec![Family {
+            weight: 1,
+            params: GenParams {
+                family: "tiny",
+                specs: &[revm_primitives::hardfork::SpecId::CANCUN],
+                txs: (2, 4),
+                n_eoa: 3,
+                n_con: 1,
+                mix: Mix { sload: 10, sstore: 10, call: 0, create: 0, slots: 2, len: (2, 4), ..Mix::default() },
+                kind_w: [6, 4, 0, 0],
+                hot_sender_pct: 40,
+                low_gas_pct: 0,
+                ..GenParams::default()
+            },
+        }],
+        profiles: ProfileWeights { quiet: 6, light: 2, chaos: 0, focus: 0, director: 0, focus_classes: &[], directors: 0 },
+        seq_pct: 0,
+    }
+}
+
+/// Campaigns used under Miri: component drivers, plus tiny whole-scheduler blocks.
+pub fn miri_by_name(prop: &str) -> Option<Box<dyn crate::campaign::Campaign>> {
+    use crate::campaign::Composite;
+    use crate::components as comp;
+    match prop {
+        "C15" => Some(Box::new(comp::C15)),
+        "C16" => Some(Box::new(comp::C16)),
+        "C17" if std::env::var("VERIF_MIRI_COMPONENT_ONLY").is_ok() => Some(Box::new(comp::C17)),
+        "C17" => Some(Box::new(Composite { prop: "C17", parts: vec![(8, Box::new(comp::C17)), (2, Box::new(tiny_sched("C17")))] })),
+        "C07" => Some(Box::new(comp::C07History)),
+        "C05" => Some(Box::new(tiny_sched("C05"))),
+        "C01" => Some(Box::new(tiny_sched("C01"))),
+        "C02" => Some(Box::new(tiny_sched("C02"))),
+        _ => None,
+    }
+}
+
 pub fn by_name(prop: &str) -> Option<Box<dyn crate::campaign::Campaign>> {
     use crate::campaign::Composite;
     use crate::components as comp;
